@@ -314,11 +314,14 @@ func intBytes(t types.Type) int64 {
 		case types.Int64, types.Uint64:
 			return 8
 		case types.Int, types.Uint, types.Uintptr:
-			return 8
+			return platformIntBytes
 		}
 	}
 	return 0
 }
+
+// platformIntBytes: size of int on the analysed configuration (set by Load).
+var platformIntBytes int64 = 8
 
 func isSigned(t types.Type) bool {
 	b, ok := t.Underlying().(*types.Basic)
@@ -901,6 +904,24 @@ func containsTerm(t, sub *term) bool {
 		}
 	}
 	return false
+}
+
+// mapSyms renames symbols and renormalises (so that argument order is canonical again).
+func mapSyms(t *term, f func(string) string) *term {
+	if t.op == "sym" {
+		if n := f(t.name); n != t.name {
+			return S(n)
+		}
+		return t
+	}
+	if len(t.args) == 0 {
+		return t
+	}
+	args := make([]*term, len(t.args))
+	for i, a := range t.args {
+		args[i] = mapSyms(a, f)
+	}
+	return norm(&term{op: t.op, name: t.name, c: t.c, args: args})
 }
 
 // substitute replaces occurrences of symbol name by repl.
